@@ -706,6 +706,7 @@ TLAPS_MODULES = {
     "bulk": ("MapProofId.tla", "MapProofBulk.tla"),
     "adv": ("MapProofAdv.tla",),
     "panic": ("MapProofPanic.tla",),
+    "clone": ("MapProofClone.tla",),
 }
 
 
@@ -841,6 +842,8 @@ def run_check(pid, tier, seed):
         summary["tlaps_inductive_invariant"] = tlaps_proof("adv")
     if pid == "C04":
         summary["tlaps_inductive_invariant"] = tlaps_proof("panic")
+    if pid == "C15":
+        summary["tlaps_inductive_invariant"] = tlaps_proof("clone")
     if pid == "C08":
         summary["tlaps_inductive_invariant"] = tlaps_proof("alg")
     if pid == "C14":
